@@ -142,6 +142,109 @@ fn run_worker_process(cases: &[Case], noisy: bool) -> Result<Vec<Res>, String> {
     Ok(res)
 }
 
+/// Supplementary: the worker process under valgrind memcheck (a third execution platform: its
+/// CPUID hides SHA-NI, so the software SHA-2 back end runs).  Results must equal the baseline and
+/// no memcheck report may have a frame of the library in its stack.
+fn memcheck(ctx: &Ctx, rep: &mut Report, cases: &[Case], base: &[Res]) {
+    let exe = match std::env::current_exe() {
+        Ok(e) => e,
+        Err(_) => return,
+    };
+    if Command::new("valgrind").arg("--version").stdout(Stdio::null()).stderr(Stdio::null()).status().map(|s| !s.success()).unwrap_or(true) {
+        rep.note("valgrind not available: memcheck pass skipped");
+        return;
+    }
+    // the cheapest shapes of every hash
+    let mut picked: Vec<usize> = Vec::new();
+    for alg in model::ALL_ALGS {
+        for want in [levels(&[(2, 8)]), levels(&[(2, 1)]), levels(&[(2, 4), (2, 8)])] {
+            if let Some(i) = cases.iter().position(|c| c.alg == alg && c.levels == want) {
+                picked.push(i);
+            }
+        }
+    }
+    if ctx.quick() {
+        picked.truncate(12);
+    }
+    let log = ctx.scratch.join(format!("memcheck-{}.log", std::process::id()));
+    let mut cmd = Command::new("valgrind");
+    cmd.args(["--tool=memcheck", "--error-exitcode=0", "--track-origins=yes", "--num-callers=30", "-q"]).arg(format!("--log-file={}", log.display())).arg(exe).arg("c09-worker");
+    cmd.env_clear().stdin(Stdio::piped()).stdout(Stdio::piped()).stderr(Stdio::null());
+    let mut child = match cmd.spawn() {
+        Ok(c) => c,
+        Err(e) => {
+            rep.note(&format!("memcheck pass could not start: {e}"));
+            return;
+        }
+    };
+    {
+        let mut si = child.stdin.take().unwrap();
+        for i in &picked {
+            let _ = writeln!(si, "{}", case_line(&cases[*i]));
+        }
+    }
+    let out = match child.wait_with_output() {
+        Ok(o) => o,
+        Err(e) => {
+            rep.note(&format!("memcheck pass failed: {e}"));
+            return;
+        }
+    };
+    let text = String::from_utf8_lossy(&out.stdout);
+    let lines: Vec<&str> = text.lines().collect();
+    if !out.status.success() || lines.len() != picked.len() {
+        rep.note(&format!("memcheck pass: worker under valgrind returned {} of {} results (status {:?}); not evaluated", lines.len(), picked.len(), out.status));
+        return;
+    }
+    for (k, i) in picked.iter().enumerate() {
+        let f: Vec<&str> = lines[k].split_whitespace().collect();
+        if f.len() == 4 {
+            let got = Res { sk: f[0].into(), vk: f[1].into(), sig: f[2].into(), next: f[3].into() };
+            compare(rep, "process-under-valgrind-memcheck", &cases[*i], &base[*i], &got);
+        }
+    }
+    // memcheck reports: blocks start with "==pid== <Kind>" and list frames "   at/by 0x...: function (file:line)"
+    let logtext = std::fs::read_to_string(&log).unwrap_or_default();
+    let _ = std::fs::remove_file(&log);
+    let mut reports = 0;
+    let mut lib_reports = 0;
+    let mut cur: Vec<String> = Vec::new();
+    let mut flush = |cur: &mut Vec<String>, rep: &mut Report| {
+        if cur.is_empty() {
+            return;
+        }
+        let head = cur[0].clone();
+        let interesting = ["uninitialised", "Invalid read", "Invalid write", "Invalid free", "Mismatched", "overlap"].iter().any(|k| head.contains(k));
+        if interesting {
+            reports += 1;
+            if let Some(fr) = cur.iter().find(|l| l.contains("hbs_lms")) {
+                lib_reports += 1;
+                let func = fr.split(": ").nth(1).unwrap_or(fr).split(" (").next().unwrap_or("?").to_string();
+                rep.violation(
+                    &format!("C09:memcheck:{}:{}", head.split_whitespace().take(4).collect::<Vec<_>>().join("_"), func),
+                    &format!("valgrind memcheck: {head} with the library on the stack ({func})"),
+                    J::obj().with("report", J::s(&cur.join(" | "))),
+                );
+            } else {
+                rep.note(&format!("memcheck report outside the library (not a verdict): {head}"));
+            }
+        }
+        cur.clear();
+    };
+    for l in logtext.lines() {
+        let body = l.splitn(3, "==").nth(2).unwrap_or("").trim_end().to_string();
+        if body.trim().is_empty() {
+            flush(&mut cur, rep);
+        } else {
+            cur.push(body.trim().to_string());
+        }
+    }
+    flush(&mut cur, rep);
+    rep.count("memcheck_cases", picked.len() as i128);
+    rep.count("memcheck_reports", reports);
+    rep.count("memcheck_reports_in_library", lib_reports);
+}
+
 fn compare(r: &mut Report, ctxname: &str, c: &Case, base: &Res, got: &Res) {
     r.eval();
     r.count(&format!("comparisons_{ctxname}"), 1);
@@ -219,6 +322,17 @@ pub fn run(ctx: &Ctx) -> Report {
             }
         }
     }
+    // keys that share one seed but differ in their parameter lists (anything memoised per seed or
+    // per tree identifier instead of per full input would mix these up)
+    for alg in model::ALL_ALGS {
+        let shared_seed = rng.bytes(alg.n());
+        for spec in [vec![(2u32, 8u32)], vec![(2, 4)], vec![(5, 4)], vec![(2, 8), (2, 4)], vec![(2, 8), (2, 8)], vec![(2, 4), (2, 8)]] {
+            let lv = levels(&spec);
+            for counter in [0u64, 1] {
+                cases.push(Case { alg, levels: lv.clone(), seed: shared_seed.clone(), counter, msg: b"shared seed".to_vec() });
+            }
+        }
+    }
     let mut rep = Report::new();
     // baseline: a fresh process with a scrubbed environment
     let base = match run_worker_process(&cases, false) {
@@ -239,6 +353,21 @@ pub fn run(ctx: &Ctx) -> Report {
         }
         Err(e) => rep.inconclusive(&format!("second worker process failed: {e}")),
     }
+    // a third fresh process that evaluates the cases in reverse order (history-dependent state
+    // inside one process would show as a difference from the baseline)
+    {
+        let rev: Vec<Case> = cases.iter().rev().cloned().collect();
+        match run_worker_process(&rev, false) {
+            Ok(other) => {
+                let n = cases.len();
+                for (i, c) in cases.iter().enumerate() {
+                    compare(&mut rep, "third-process-reverse-order", c, &base[i], &other[n - 1 - i]);
+                }
+            }
+            Err(e) => rep.inconclusive(&format!("third worker process failed: {e}")),
+        }
+    }
+    memcheck(ctx, &mut rep, &cases, &base);
 
     // in-process contexts
     let idx: Vec<usize> = (0..cases.len()).collect();
@@ -365,7 +494,7 @@ pub fn run(ctx: &Ctx) -> Report {
         w.report.distinct(&format!("walk|{}|{}", alg.name(), fmt_levels(&lv)));
     });
     rep.merge(r3);
-    rep.rule = "cases = (hash, parameter list, seed, counter, message); baseline = results of a fresh process with a scrubbed environment; re-evaluations: second fresh process with 200 noise variables, hostile HBS_LMS_*/locale/TZ settings and another cwd; same thread twice; after unrelated operations (other keys and hashes, failing calls, refused callbacks, a callback that panics and is caught, aux in use); concurrently on all worker threads (overlap of call kinds recorded from an atomic active-call table); SigningKey::try_sign and try_sign_with_aux(valid aux) vs byte-level sign; complete lifetimes of a SigningKey object kept in memory vs a key reloaded from its bytes before every signature; \
+    rep.rule = "cases = (hash, parameter list, seed, counter, message); baseline = results of a fresh process with a scrubbed environment; cases include groups of keys that share one seed but differ in parameters; re-evaluations: second fresh process with 200 noise variables, hostile HBS_LMS_*/locale/TZ settings and another cwd; third fresh process evaluating in reverse order; a process under valgrind memcheck (software SHA-2 back end; any report with a library frame is a violation); same thread twice; after unrelated operations (other keys and hashes, failing calls, refused callbacks, a callback that panics and is caught, aux in use); concurrently on all worker threads (overlap of call kinds recorded from an atomic active-call table); SigningKey::try_sign and try_sign_with_aux(valid aux) vs byte-level sign; complete lifetimes of a SigningKey object kept in memory vs a key reloaded from its bytes before every signature; \
                 distinct_nontrivial = distinct (context family, hash, parameter list, counter)"
         .into();
     if rep.counter("walk_steps_compared") == 0 {
